@@ -252,6 +252,17 @@ def run_case(case):
 
 def main():
     req = json.load(sys.stdin)
+    if req.get("facts"):
+        # behavioural probe of the one fact the model is parametrised by (see props/c17.py observed_facts)
+        from ase.build import molecule
+        clf = CL.Classifier(pos_tol_mode="absolute", delaunay_threshold_mode="absolute", pos_tol=0.4)
+        try:
+            with contextlib.redirect_stdout(io.StringIO()):
+                clf.classify(molecule("H2O"))
+        except Exception:  # noqa
+            pass
+        print(json.dumps({"facts": {"abs_pos_tol_set_when_both_absolute": getattr(clf, "abs_pos_tol", None) is not None}}))
+        return
     rows = []
     for case in req["cases"]:
         try:
